@@ -229,7 +229,7 @@ pub enum Op {
     Dir,
     /// recover a *copy* from the image after `k` OS-level operations plus `cut` bytes of the next
     /// `instant`: for a power-loss image, the number of OS operations done when power was lost
-    Crash { k: usize, cut: usize, pol: Pol, instant: Option<usize>, drop: Vec<u64>, zero: Vec<(u64, u64)> },
+    Crash { k: usize, cut: usize, pol: Pol, instant: Option<usize>, drop: Vec<u64>, zero: Vec<(u64, u64)>, fail: Option<u64> },
     /// drop the log (the `BufWriter` flushes)
     Close,
     /// remember / restore the directory content (log must be closed)
@@ -274,7 +274,7 @@ impl Op {
             Op::Range { q, lo, hi } => format!("range {} {} {}", hex(q.as_bytes()), lo.tok(), hi.tok()),
             Op::State => "state".into(),
             Op::Dir => "dir".into(),
-            Op::Crash { k, cut, pol, instant, drop, zero } => {
+            Op::Crash { k, cut, pol, instant, drop, zero, fail } => {
                 let mut s = format!("crash {} {} {}", k, cut, pol.tok());
                 if let Some(i) = instant {
                     s.push_str(&format!(" instant={}", i));
@@ -284,6 +284,9 @@ impl Op {
                 }
                 if !zero.is_empty() {
                     s.push_str(&format!(" zero={}", zero.iter().map(|(f, o)| format!("{}:{}", f, o)).collect::<Vec<_>>().join(",")));
+                }
+                if let Some(n) = fail {
+                    s.push_str(&format!(" fail={}", n));
                 }
                 s
             }
@@ -334,6 +337,7 @@ impl Op {
                 pol: Pol::parse(p),
                 instant: kv("instant").and_then(|v| v.parse().ok()),
                 drop: kv("drop").map(|v| v.split(',').filter_map(|x| x.parse().ok()).collect()).unwrap_or_default(),
+                fail: kv("fail").and_then(|v| v.parse().ok()),
                 zero: kv("zero").map(|v| v.split(',').filter_map(|x| x.split_once(':').and_then(|(a, b)| Some((a.parse().ok()?, b.parse().ok()?)))).collect()).unwrap_or_default(),
             }),
             ["append", q, p, rest @ ..] => Some(Op::Append {
